@@ -210,7 +210,7 @@ PROPS["C18"] = {
              "native debug-assertion and release builds, AddressSanitizer, Miri (small slices, no pool); plus one item set through Nucleo with 1/2/4/16 threads. "
              "distinct_nontrivial = distinct (length > 20, key prefix, cancellation, threads) tuples"),
     "require": {"any": {"phase.heapsort": 1, "phase.break-patterns": 1, "phase.partial-insertion": 1, "phase.partition-equal": 1, "phase.cancel-observed": 1,
-                         "phase.parallel-join": 1, "c18.reported-cancelled": 10, "c18.reported-not-cancelled": 100, "c18.end-to-end-item-sets": 1}},
+                         "phase.parallel-join": 1, "c18.reported-cancelled": 10, "c18.reported-not-cancelled": 100, "c18.end-to-end-item-sets": 1, "shape.antiquicksort-in-a-part": 50}},
     "assumptions": ["a stack overflow / abort of the monitor process while sorting is a violation (the crumb file names the case)",
                     "Miri runs call the sort on the current thread with slices <= 2000 elements, which never reach rayon::join"],
 }
